@@ -277,6 +277,32 @@ def main():
                 if show(out[j]) != alone[i]:
                     fail('C11', 'result depends on batch position / chunking / history', variant=name, sentence=i, got=show(out[j]), alone=alone[i], **ctx0)
                     break
+        # step budget: a budget every sentence fits in alone must do for the batch, and a budget some sentence exhausts fails that sentence only
+        pops = []
+        for toks, sc in zip(doc, scores):
+            PYX.__dict__['__pop_log__'] = []
+            try:
+                run([toks], [sc])
+            finally:
+                pops.append(len(PYX.__dict__['__pop_log__'] or []))
+                PYX.__dict__['__pop_log__'] = None
+        if harness.lib().have_hook and any(pops):
+            for budget, what in ((max(pops), 'a step budget every sentence fits in alone'), (max(1, sorted(pops)[len(pops) // 2] - 1), 'a step budget some sentences exhaust')):
+                try:
+                    outb = PARSING.run(doc, scores, cats, roots, G.bin, G.un, processes=1, max_chunk_size=20, max_step=budget, **kw)
+                    oneb = [PARSING.run([t_], [s_], cats, roots, G.bin, G.un, processes=1, max_chunk_size=20, max_step=budget, **kw)[0] for t_, s_ in zip(doc, scores)]
+                except Exception as e:   # noqa
+                    fail('C11', 'run raises under a small step budget', budget=budget, error=repr(e)[:300], **ctx0)
+                    continue
+                stats['n'] += len(doc)
+                for i in range(len(doc)):
+                    if show(outb[i]) != show(oneb[i]):
+                        fail('C11', 'under ' + what + ' the result of a sentence depends on the sentences parsed before it', budget=budget, pops_alone=pops, sentence=i,
+                             in_batch=show(outb[i]), alone=show(oneb[i]), **ctx0)
+                        break
+                    if budget >= pops[i] and show(oneb[i]) != alone[i]:
+                        fail('C11', 'a step budget the sentence fits in changes its result', budget=budget, pops_alone=pops, sentence=i, got=show(oneb[i]), expected=alone[i], **ctx0)
+                        break
         # shape validation happens before any parsing
         bad_scores = list(scores)
         k = rng.randrange(len(doc))
